@@ -2,6 +2,7 @@ package powsim
 
 import (
 	"math/big"
+	"math/bits"
 	"math/rand/v2"
 
 	"verif/sim/kernel"
@@ -109,7 +110,7 @@ func (s *stub) Trits(nonce uint64) []int8 {
 func (s *stub) fill(l, h *[ref.HashLen]uint, nonce uint64, lanes *[64]uint64) {
 	if lanes != nil {
 		regular := true
-		for j := uint64(0); j < 64; j++ {
+		for j := uint64(0); j < bits.UintSize; j++ {
 			if lanes[j] != nonce+j {
 				regular = false
 				break
@@ -119,7 +120,7 @@ func (s *stub) fill(l, h *[ref.HashLen]uint, nonce uint64, lanes *[64]uint64) {
 			for i := 0; i < ref.HashLen; i++ {
 				l[i], h[i] = ^uint(0), ^uint(0)
 			}
-			for j := 0; j < 64; j++ {
+			for j := 0; j < bits.UintSize; j++ {
 				t := s.Trits(lanes[j])
 				m := uint(1) << uint(j)
 				for i := 0; i < ref.HashLen; i++ {
